@@ -70,7 +70,11 @@ pub fn string_reference_agrees(s: &str) -> Option<bool> {
     }
     let want = numeral_expectation(s);
     let got = string_expectation(s);
-    Some(want == got)
+    Some(match (want, got) {
+        (Exp::Ok(a), Exp::Ok(b)) => a == b,
+        (Exp::Err(_), Exp::Err(_)) => true,
+        _ => false,
+    })
 }
 
 pub fn field_expectation(kind: Kind, v: &Value) -> Exp<Option<Num>> {
